@@ -97,12 +97,124 @@ func envelope(era string, body, wits *vh.Item, isValid bool) *vh.Item {
 
 func enterpriseAddr(keyHash []byte) []byte { return append([]byte{0x61}, keyHash...) }
 
-// baseBody returns the mandatory body keys (inputs, outputs, fee) as k,v pairs.
-func baseBody(era string, txid []byte, fee uint64) []*vh.Item {
+// ---- transaction shape, varied independently of the property-relevant fields ----
+
+// shape counts the parts of a transaction that no rule under test reads but
+// that size-dependent paths of the validation pipeline may depend on.
+type shape struct {
+	Inputs  int `json:"inputs"`
+	Refs    int `json:"refs"`    // reference inputs (Babbage+)
+	Outputs int `json:"outputs"` //
+	Certs   int `json:"certs"`   // stake registration certificates
+	Coll    int `json:"coll"`    // collateral inputs (Alonzo+; unused where collateral is property-relevant)
+}
+
+var shapeCounts = []int{0, 1, 2, 7, 8, 9, 16, 40}
+
+var defaultShape = shape{Inputs: 1, Outputs: 1}
+
+func genShape(r *vh.Rng) shape {
+	if r.Chance(1, 4) {
+		return defaultShape
+	}
+	pick := func() int { return vh.PickOne(r, shapeCounts) }
+	sh := shape{Inputs: pick(), Refs: pick(), Coll: pick(), Outputs: []int{1, 1, 2, 9}[r.Intn(4)], Certs: []int{0, 0, 1, 3}[r.Intn(4)]}
+	if r.Chance(1, 2) {
+		// keep the total number of referenced UTxOs around the small-transaction boundary
+		sh.Refs, sh.Coll = []int{0, 1, 7}[r.Intn(3)], 0
+	}
+	return sh
+}
+
+func shapeTxid(prefix byte, i int) []byte {
+	b := make([]byte, 32)
+	b[0], b[30], b[31] = prefix, byte(i>>8), byte(i)
+	return b
+}
+
+func inputList(prefix byte, n int) *vh.Item {
+	var xs []*vh.Item
+	for i := 0; i < n; i++ {
+		xs = append(xs, vh.A(vh.B(shapeTxid(prefix, i)), vh.U(uint64(i%3))))
+	}
+	return vh.A(xs...)
+}
+
+// shapedBody returns the body keys every era has (inputs, outputs, fee) plus
+// the shape-only keys the era knows (certificates 4, collateral 13 when
+// withColl, reference inputs 18) as k,v pairs.
+func shapedBody(era string, sh shape, fee uint64, withColl bool) []*vh.Item {
 	addr := enterpriseAddr(make([]byte, 28))
-	return []*vh.Item{
-		vh.U(0), vh.A(vh.A(vh.B(txid), vh.U(0))),
-		vh.U(1), vh.A(vh.A(vh.B(addr), vh.U(2000000))),
+	var outs []*vh.Item
+	for i := 0; i < sh.Outputs; i++ {
+		outs = append(outs, vh.A(vh.B(addr), vh.U(uint64(2000000+i))))
+	}
+	kv := []*vh.Item{
+		vh.U(0), inputList(0x11, sh.Inputs),
+		vh.U(1), vh.A(outs...),
 		vh.U(2), vh.U(fee),
 	}
+	if sh.Certs > 0 {
+		var cs []*vh.Item
+		for i := 0; i < sh.Certs; i++ {
+			h := make([]byte, 28)
+			h[0], h[1] = 0xce, byte(i)
+			cs = append(cs, vh.A(vh.U(0), vh.A(vh.U(0), vh.B(h))))
+		}
+		kv = append(kv, vh.U(4), vh.A(cs...))
+	}
+	if withColl && sh.Coll > 0 && eraIndex(era) >= 3 {
+		kv = append(kv, vh.U(13), inputList(0x33, sh.Coll))
+	}
+	if sh.Refs > 0 && eraIndex(era) >= 4 {
+		kv = append(kv, vh.U(18), inputList(0x22, sh.Refs))
+	}
+	return kv
+}
+
+// baseBody returns the mandatory body keys (inputs, outputs, fee) as k,v pairs.
+func baseBody(era string, txid []byte, fee uint64) []*vh.Item {
+	return shapedBody(era, defaultShape, fee, false)
+}
+
+// projectedVerify runs common.VerifyTransaction over the era's WHOLE rule
+// list with the given ledger state.  The rules selected by isTarget are passed
+// unchanged; every other rule is executed too (same arguments) but its verdict
+// and panics are discarded, so that the error VerifyTransaction returns is the
+// one of the target rules: the observable is the target rules' error as seen
+// through the real pipeline.
+func projectedVerify(era string, isTarget func(name string) bool, tx common.Transaction, slot uint64,
+	ls common.LedgerState, pp common.ProtocolParameters) (err error, targets int) {
+	var rules []common.UtxoValidationRuleFunc
+	for _, r := range eraRules(era) {
+		_, name, _ := funcInfo(r)
+		if isTarget(name) {
+			rules = append(rules, r)
+			targets++
+			continue
+		}
+		rr := r
+		rules = append(rules, func(tx common.Transaction, slot uint64, ls common.LedgerState, pp common.ProtocolParameters) error {
+			defer func() { _ = recover() }()
+			_ = rr(tx, slot, ls, pp)
+			return nil
+		})
+	}
+	return common.VerifyTransaction(tx, slot, ls, pp, rules), targets
+}
+
+// directRules calls the target rules of the era's list one after the other
+// with the caller's ledger state, without VerifyTransaction.
+func directRules(era string, isTarget func(name string) bool, tx common.Transaction, slot uint64,
+	ls common.LedgerState, pp common.ProtocolParameters) error {
+	for _, r := range eraRules(era) {
+		_, name, _ := funcInfo(r)
+		if !isTarget(name) {
+			continue
+		}
+		if err := r(tx, slot, ls, pp); err != nil {
+			return err
+		}
+	}
+	return nil
 }
